@@ -64,6 +64,9 @@ class OutputSuppressionContext:
         # The level of the root logger and the standard input stream, likewise.
         self._saved_root_level: int | None = None
         self._saved_stdin: object | None = None
+        # The handlers of the root logger and the loggers that were disabled, likewise.
+        self._saved_root_handlers: list[logging.Handler] | None = None
+        self._saved_disabled_loggers: dict[str, bool] | None = None
 
     def restore(self) -> None:
         """Restore stdout and stderr at both Python and OS level."""
@@ -87,6 +90,13 @@ class OutputSuppressionContext:
                 logging.disable(self._saved_logging_disable)
             if self._saved_root_level is not None:
                 logging.root.setLevel(self._saved_root_level)
+            if self._saved_root_handlers is not None:
+                logging.root.handlers[:] = self._saved_root_handlers
+            if self._saved_disabled_loggers is not None:
+                for name, disabled in self._saved_disabled_loggers.items():
+                    logger = logging.root.manager.loggerDict.get(name)
+                    if isinstance(logger, logging.Logger):
+                        logger.disabled = disabled
 
     def __enter__(self) -> None:
         # Save OS-level fds before the SUT has a chance to close them.
@@ -96,6 +106,12 @@ class OutputSuppressionContext:
         self._saved_logging_disable = logging.root.manager.disable
         self._saved_root_level = logging.root.level
         self._saved_stdin = sys.stdin
+        self._saved_root_handlers = logging.root.handlers[:]
+        self._saved_disabled_loggers = {
+            name: logger.disabled
+            for name, logger in logging.root.manager.loggerDict.items()
+            if isinstance(logger, logging.Logger)
+        }
         try:
             unusable = self._null_file.closed
         except ValueError:
